@@ -63,6 +63,14 @@ Theorem unrank_row_major : forall exts idx,
 Proof. exact ArrIndexProofs.unrank_row_major. Qed.
 Print Assumptions unrank_row_major.
 
+(* row-major order is the lexicographic order of the in-range tuples: the element numbers grow with
+   the first differing index, the last index varies fastest (what linear iteration over value[] visits) *)
+Theorem row_major_lex : forall exts idx1 idx2,
+  in_range exts idx1 -> in_range exts idx2 ->
+  lex_lt idx1 idx2 -> row_major exts idx1 < row_major exts idx2.
+Proof. exact ArrIndexProofs.row_major_lex. Qed.
+Print Assumptions row_major_lex.
+
 (* the hypotheses are met by a concrete 3-dimensional array *)
 Example row_major_bijection_nonvacuous :
   Forall (fun n => 0 < n) [2; 3; 4] /\ 0 <= 17 < prodZ [2; 3; 4] /\
